@@ -166,7 +166,7 @@ def run(ctx, res):
     # ---- custom iterators used by writers (NACK word generator): obligations of next() under its invariant
     n_it = 0
     for d, b in F.bodies.items():
-        if b["name"] == "entries" and "Builder" in d:
+        if "Builder" in d and b.get("ret") is not None and "impl std::iter::Iterator<Item = [u8; 4]>" in F.types[b["ret"]]["s"]:
             I = Interp(F)
             recv_adt = b["parent"]
             adt = [a for a in F.adts if d.startswith(a + "::")]
